@@ -1998,6 +1998,53 @@ def gen_cache_start(ctx, rng):
     return cases
 
 
+async def cs_lifecycle_probes(loop, notes):
+    """two lifecycles outside the generated ones, observed and noted only (never judged): the SAME mDNS controller object stopped and
+    started again, and a caller of the aggregate controller that waits before async_start"""
+    import aiohomekit.zeroconf as zcmod
+    from zeroconf.asyncio import AsyncServiceInfo
+    world = CsWorld(loop, {"controller": "ip", "services": [cs_service(7, "i", CS_TTLS[0], [None] * 4)], "events": []}, [])
+
+    class BrowserStub:
+        types = [HAP_TCP, HAP_UDP]
+
+        def __init__(self):
+            self.service_state_changed = world.signal.registration_interface
+
+    class Info(AsyncServiceInfo):
+        async def async_request(self, zc, timeout, *a, **k):
+            await world.answer(self)
+            return self.load_from_cache(zc)
+    azc = mock.Mock(name="AsyncZeroconf")
+    azc.zeroconf = world.zc
+    world.zc.listeners = [BrowserStub()]
+    with mock.patch.object(zcmod, "AsyncServiceBrowser", BrowserStub), mock.patch.object(zcmod, "AsyncServiceInfo", Info):
+        world.fill()
+        world.started = True
+        ctl = IpController(char_cache=CharacteristicCacheMemory(), zeroconf_instance=azc)
+        await ctl.async_start()
+        await ctl.async_stop()
+        await ctl.async_start()
+        t = asyncio.ensure_future(ctl.async_find(CS_IDS[7], 5))
+        await asyncio.sleep(1)
+        world.announce(0, CS_KINDS)
+        try:
+            await t
+            notes.append(f"cache-start probe: the same IpController object stopped and started again - a waiter pending when the accessory announces itself 1 s later is completed at {world.vnow()} ms")
+        except AccessoryNotFoundError:
+            notes.append(f"cache-start probe (observed, not judged): the same IpController object stopped and started again - browser events delivered to the re-registered handler are dropped "
+                         f"(_running stays False after async_stop), a waiter pending when the accessory announces itself at 1000 ms fails with not-found at {world.vnow()} ms")
+        await ctl.async_stop()
+        top = Controller(async_zeroconf_instance=azc, char_cache=CharacteristicCacheMemory())
+        t0 = world.vnow()
+        try:
+            await top.async_find(CS_IDS[7], 5)
+        except AccessoryNotFoundError:
+            if world.vnow() - t0 < 5000:
+                notes.append(f"cache-start probe (observed, not judged): Controller.async_find before Controller.async_start (no transport registered yet) fails with not-found after {world.vnow() - t0} ms, "
+                             "not at its 5000 ms timeout")
+
+
 def cache_start_streams(ctx, rng):
     cases = gen_cache_start(ctx, rng)
     loop = simnet.VLoop()
@@ -2016,6 +2063,11 @@ def cache_start_streams(ctx, rng):
                         ctx.dist["cache-start:service:" + ("malformed" if s.get("bad") else "must-be-found" if b["avail"] is not None else "either" if not world.device(s["n"])["never"] else "must-not-be-found")] += 1
                 ctx.dist["cache-start:queries-sent"] += world.queries
                 ctx.dist["cache-start:browser-events"] += world.fired
+            try:
+                loop._vt = float(int(loop._vt) + 2)
+                loop.run_until_complete(cs_lifecycle_probes(loop, ctx.notes))
+            except Exception as ex:  # noqa: BLE001 - a probe, never a verdict
+                ctx.notes.append(f"cache-start probe did not complete: {ex!r}"[:200])
     finally:
         loop.close()
     ctx.sample(cases[0])
